@@ -8,7 +8,7 @@ from ..cfg import NORMAL, Node, handler_classes
 from ..core import Ctx
 from ..flow import ALL, find_path, names_in
 from ..model import AnalysisError, FunctionInfo, dotted, norm_text
-from .common import handler_nodes, in_try_body, kwarg, reachable_from
+from .common import error_escapes, handler_nodes, in_try_body, kwarg, reachable_from
 
 EXPLANATION = (
     "Static analysis of the two local publishers (LocalStorageBackend.write_file, DataFileWriter.close): (R1) dominance + "
@@ -26,6 +26,7 @@ def check(ctx: Ctx) -> None:
     r1(ctx)
     r1b(ctx)
     r2(ctx)
+    r5(ctx)
     from .c03 import r1 as c03_r1, r2 as c03_r2
     c03_r2(ctx, "C16.R3")
     c03_r1(ctx, "C16.R4")
@@ -121,6 +122,31 @@ def r1b(ctx: Ctx) -> None:
                "file whose bytes are still in the first handle's buffer - after a power loss the committed data file is empty")
     if n_local < 1:
         raise AnalysisError("no local (temp-file) ParquetWriter found in DataFileWriter.open")
+
+
+def r5(ctx: Ctx) -> None:
+    ctx.rule("C16.R5", "a publisher that could not make the bytes durable says so: an OSError from the content write, the file "
+             "fsync, the writer close or the rename leaves write_file / DataFileWriter.close as an exception", 6)
+    for q in ("storage_backend.LocalStorageBackend.write_file", "data_operations.DataFileWriter.close"):
+        f = ctx.fn(q)
+        g = ctx.cfg(f)
+        sl = ctx.slicer(f)
+        steps = ctx.calls(f, prim="os.write") + ctx.calls(f, prim="os.replace")
+        for fs in _fsyncs(ctx, f):
+            arg = fs.ast.args[0] if isinstance(fs.ast, ast.Call) and fs.ast.args else None
+            org = sl.origins(arg, fs.id)
+            is_dir = any(isinstance(c, ast.Call) and (dotted(c.func) or "") == "os.open" and c.args and any(
+                    isinstance(c2, ast.Call) and (dotted(c2.func) or "") == "os.path.dirname"
+                    for c2 in sl.origins(c.args[0], fs.id)["calls"]) for c in org["calls"])
+            if not is_dir:
+                steps.append(fs)
+        steps += [n for n in g.calls() if isinstance(n.ast, ast.Call) and isinstance(n.ast.func, ast.Attribute)
+                  and n.ast.func.attr == "close" and "_writer" in norm_text(n.ast.func.value)]
+        for n in steps:
+            ok, why = error_escapes(ctx, f, n, "OSError")
+            ctx.ob("C16.R5", f, "failure of a durability step propagates", n, ok,
+                   f"`{n.text[:50]}`: " + ("an OSError here leaves the function" if ok else
+                                          f"{why} - the commit goes on and acknowledges a file that is missing, truncated or not on disk"))
 
 
 def r2(ctx: Ctx) -> None:
